@@ -45,7 +45,7 @@ claim("C08",
       'DESIGN.md §8 C08, §13')
 claim("C09",
       "Lean 4 proof: erasing data from the cache model commutes with every accepted operation of a tag-only reference cache (policy-generic), counters and penalties follow by induction; correspondence with the real policies",
-      "23 theorems (Props/C09.lean): erase_commutes_read/write/op, counters_refine for all histories and prefixes, penalty per counted miss, uncounted reads and direct writes leave counters untouched, reread_neutral (display re-read is a no-op), instances for LRU/PLRU, display_reread_harmless at instruction level; plus the proved necessity of policy idempotence for writes. Program-level equality of the counters in both modes is tied by correspondence and oracle (and follows from C02 once its control half is proved).",
+      "33 theorems. Props/C09.lean (23): erase_commutes_read/write/op, counters_refine for all histories and prefixes, penalty per counted miss, uncounted reads and direct writes leave counters untouched, reread_neutral (display re-read is a no-op), instances for LRU/PLRU, display_reread_harmless at instruction level; plus the proved necessity of policy idempotence for writes. Props/C09Prog.lean (10), program level: split_agrees_cached (split stages = single-cycle step on cached memory, equal states), dcache_counters_equal_modes (a fault-free five-stage run to completion and the single-cycle run end with the SAME data memory system and hit/access/last-hit counters, also with any instruction cache on), each_memop_counted_once, accesses_count_memops and five_stage_accesses_count_memops (counter growth = number of executed loads/stores; squashed and stalled instructions not double-counted).",
       TB + "blkBits <= 12 (F6).",
       "DESIGN.md §8 C09")
 claim("C10",
@@ -55,7 +55,7 @@ claim("C10",
       "DESIGN.md §8 C10")
 claim("C11",
       "Lean 4 invariant proof: every resident block equals the instruction-memory block (transparency), reset clears, fetch accounting = tag-only reference; correspondence with every cached block in the snapshot",
-      "13 theorems (Props/C11.lean): icache_transparent (all geometries, both policies, any pc), reset_clears, fetch_accounting and fetch_run_accounting, single-cycle accesses = executed instructions.",
+      "18 theorems. Props/C11.lean (13): icache_transparent (all geometries, both policies, any pc), reset_clears, fetch_accounting and fetch_run_accounting, single-cycle accesses = executed instructions. Props/C11Prog.lean (5), program level: ICoh_icache (the cache invariant gives the fetch-coherence hypothesis of the pipeline refinement C02), final_state_icache, icache_single_step_equal / icache_run_equal (single-cycle runs with and without an instruction cache agree on everything but cycles and cache state), icache_five_stage_results (five-stage results and retired addresses independent of the instruction cache).",
       TB,
       "DESIGN.md §8 C11")
 claim("C12",
